@@ -533,8 +533,9 @@ def explore(modname, tier, seed, jobs=None, limit=None, options=None, list_sigs=
         wall_s=round(time.time() - t0, 2),
         violations=len(unmatched),
     )
-    os.makedirs(os.path.join(VERIF, "evidence"), exist_ok=True)
-    with open(os.path.join(VERIF, "evidence", prop + ".json"), "w") as f:
+    evdir = os.environ.get("VERIF_EVIDENCE_DIR") or os.path.join(VERIF, "evidence")  # development runs against a scratch tree write elsewhere
+    os.makedirs(evdir, exist_ok=True)
+    with open(os.path.join(evdir, prop + ".json"), "w") as f:
         json.dump(ev, f, indent=1, default=repr, sort_keys=True)
     for ln in lines:
         print(ln)
